@@ -70,6 +70,16 @@ func genRecCase() *rapid.Generator[Case] {
 		r.Off = rapid.SampledFrom(u64Edges).Draw(t, "off")
 		r.Huge = rapid.IntRange(0, 59).Draw(t, "huge") == 31 // rapid biases integer draws towards the bounds, hence an interior value
 		r.Follow = rapid.SampledFrom([]string{"", "zeros", "copy", "ones"}).Draw(t, "follow")
+		if b := rapid.IntRange(0, 15).Draw(t, "blank"); b >= 8 && b <= 10 {
+			// nearly blank records: what distinguishes them from an unwritten slot is a single field
+			r.Key, r.Value, r.TS = "", "", 0
+			if b == 9 {
+				r.Bucket, r.TTL, r.Flag, r.Status, r.DS, r.TxID = "", 0, 0, 0, 0, 0
+			}
+			if b == 10 {
+				r.Bucket = ""
+			}
+		}
 		return Case{Extra: map[string]interface{}{"rec": r}}
 	})
 }
